@@ -7,8 +7,13 @@
 EXTENDS MCUtxoRpc, Json
 GenNone == {}
 Emit ==
-    /\ \A l \in MCInts : PrintT(<<"VEC", ToJson([l |-> l, x |-> Denote(l), want |-> MapInt(l)])>>)
-    /\ \A d \in MCDatums : PrintT(<<"VEC", ToJson([l |-> d, want |-> MapDatum(d)])>>)
+    \* `enc` = wire variant the harness encodes the datum in: canonical, non-minimal heads
+    \* ("wide": 5 as 18 05), indefinite-length containers, both.  The content is the same; the
+    \* datum hash and original_cbor of the mapped output must follow the wire bytes.
+    /\ \A l \in MCInts, e \in {"canon", "wide"} :
+          PrintT(<<"VEC", ToJson([l |-> l, enc |-> e, x |-> Denote(l), want |-> MapInt(l)])>>)
+    /\ \A d \in MCDatums, e \in {"canon", "wide", "indef", "wideindef"} :
+          PrintT(<<"VEC", ToJson([l |-> d, enc |-> e, want |-> MapDatum(d)])>>)
     \* lovelace / asset quantities (u64_to_bigint): the harness puts them into an output's value
     /\ \A c \in U64s \cup {Pow2(32), Pow2(62)} : PrintT(<<"VEC", ToJson([coin |-> IntV(c), want |-> MapU64(c)])>>)
 ASSUME Emit
